@@ -678,6 +678,11 @@ impl CommandHub {
     /// (with a failure) instead of waiting for the worker timeout — or forever,
     /// for the tasks that have no timeout (load state, soft stop).
     fn fail_requests_in_flight_to(&mut self, worker_id: WorkerId) {
+        // a task scattered in this very batch of events is still queued: adopt it, as the top of
+        // the loop would, or the failures synthesized below find no task and are dropped — and a
+        // task without deadline (soft stop, configuration reload) then waits for ever
+        let queued = std::mem::take(&mut self.server.queued_tasks);
+        self.tasks.extend(queued);
         let orphans: Vec<RequestId> = self
             .in_flight
             .keys()
